@@ -594,6 +594,61 @@ def run_history(xsmc, hist, tier, work, stats, violations, samples):
         shutil.rmtree(os.path.join(work, hist, "g2-%d" % k), ignore_errors=True)
         return out
 
+    # third generation: a fault DURING RECOVERY. The process is killed at crash point k, a second
+    # process reopens the store and is itself killed (or the power fails) after any prefix of the
+    # file-system mutations of the recovery - including the background work the reopen triggers;
+    # a third process must open what is left and find the same acknowledged history.
+    g3 = [j for j in jobs if j[1] == "kill"]
+    if tier != "thorough":
+        g3 = g3[:: max(1, len(g3) // 5)][:6]
+
+    def third_generation(job):
+        label_k, _kind, _img, allowed, snap, _torn = job
+        tag = "g3-%d" % jobs.index(job)
+        out = []
+        d3 = os.path.join(work, hist, tag, "store")
+        os.makedirs(os.path.dirname(d3), exist_ok=True)
+        materialise(snap, root, d3, power_loss=False)
+        spec = os.path.join(work, hist, tag, "none.json")
+        json.dump({"op": "none", "settle_ms": 300}, open(spec, "w"))
+        trace3 = os.path.join(work, hist, tag, "trace.txt")
+        r = subprocess.run(["strace", "-f", "-xx", "-s", "10000000", "-o", trace3, "-e", "trace=file,desc,%process", xsmc, "driver2", d3, spec],
+                           stdout=subprocess.PIPE, stderr=subprocess.PIPE, timeout=120)
+        label0 = "%s, reopen" % label_k
+        if r.returncode != 0:
+            shutil.rmtree(os.path.join(work, hist, tag), ignore_errors=True)
+            return [(label0, "kill", ["the store does not reopen: driver2 exit %s: %s" % (r.returncode, r.stderr.decode(errors="replace")[-300:].replace("\n", " | "))], None, 0)]
+        ev3 = parse_trace(trace3, d3)
+        fs3 = FS(d3)
+        for pth, fl in snap.files.items():
+            fs3.files[d3 + pth[len(root):]] = fl.clone()
+        fs3.dirs = set(d3 + x[len(root):] for x in snap.dirs)
+        nmut = 0
+        for j, e3 in enumerate(ev3):
+            if e3[0] == "ack":
+                continue
+            e3[1](fs3)
+            if e3[0] != "mut":
+                continue
+            nmut += 1
+            for kind in ("kill", "power"):
+                snap3 = fs3.snapshot()
+                if kind == "power" and not any(os.path.relpath(pp, d3).startswith("fjall/journals/") and [d for d in ff.dirty if d[0] != "trunc"] for pp, ff in snap3.files.items()):
+                    continue
+                img = os.path.join(work, hist, tag, "img-%d-%s" % (j, kind))
+                materialise(snap3, d3, img, power_loss=(kind == "power"), torn=None)
+                rr = subprocess.run([xsmc, "recover", img, probe], stdout=subprocess.PIPE, stderr=subprocess.PIPE, timeout=60)
+                shutil.rmtree(img, ignore_errors=True)
+                m = re.search(r"RECOVERED (.*)", rr.stdout.decode(errors="replace"))
+                label = "%s, then %s during the recovery after[%s]" % (label0, "power loss" if kind == "power" else "kill", e3[2])
+                if rr.returncode != 0 or not m:
+                    out.append((label, kind, ["the store does not reopen: exit %s: %s" % (rr.returncode, rr.stderr.decode(errors="replace")[-300:].replace("\n", " | "))], None, nmut))
+                else:
+                    rec = json.loads(m.group(1))
+                    out.append((label, kind, check_recovered(rec, allowed, kind == "kill", label), json.dumps(sorted(f["id"] for f in rec["all"])), nmut))
+        shutil.rmtree(os.path.join(work, hist, tag), ignore_errors=True)
+        return out
+
     def do(job):
         label, kind, img, allowed, snap, torn = job
         materialise(snap, root, img, power_loss=(kind != "kill"), torn=torn if kind != "kill" else None)
@@ -609,6 +664,16 @@ def run_history(xsmc, hist, tier, work, stats, violations, samples):
     with ThreadPoolExecutor(max_workers=os.cpu_count() or 4) as ex:
         results = list(ex.map(do, jobs))
         g2_results = [x for lst in ex.map(second_generation, g2) for x in lst]
+        g3_results = [x for lst in ex.map(third_generation, g3) for x in lst]
+    stats["recovery_fault_runs"] = stats.get("recovery_fault_runs", 0) + len(g3)
+    stats["images_recovery_fault"] = stats.get("images_recovery_fault", 0) + len(g3_results)
+    stats["recovery_mutations_max"] = max([stats.get("recovery_mutations_max", 0)] + [x[4] for x in g3_results])
+    for (label, kind, probs, sig, _n) in g3_results:
+        for pr in probs:
+            violations.append({"history": hist, "image": label, "kind": "g3-" + kind, "problem": pr})
+    g3s = stats.setdefault("recovery_fault_samples", [])
+    if len(g3s) < 6 and g3_results:
+        g3s.extend([g3_results[0][0], g3_results[-1][0]])
     stats["second_generation_runs"] = stats.get("second_generation_runs", 0) + len(g2)
     stats["images_second_generation"] = stats.get("images_second_generation", 0) + len(g2_results)
     for (label, kind, probs, sig) in g2_results:
